@@ -105,12 +105,22 @@ pub fn handle(op: &str, req: &Value) -> Option<Value> {
         let data: Vec<u8> = l.as_array().into_iter().flatten().flat_map(|i| content(i.as_u64().unwrap_or(0))).collect();
         match block_on(blob.put("f", &data, PutOptions::default())) { Ok(id) => ids.push(id), Err(e) => return Some(json!({"error": e.to_string()})) }
     }
-    // both chunks exist in every modelled state: an artifact holding them that is deleted again leaves zero-count chunks
+    // an unreferenced stored chunk (count 0): written by an artifact that is deleted again
+    if let Some(o) = req["orphan"].as_u64() {
+        if let Ok(id) = block_on(blob.put("tmp", &content(o), PutOptions::default())) {
+            let _ = block_on(blob.delete(&id));
+        }
+    }
     let pre = mismatches(&store);
     let target = |v: &Value| v.as_array().and_then(|a| a.first()).and_then(Value::as_u64);
     let run = {
         let ids = ids.clone();
         move |b: &BlobStore, kind: &str, t: Option<u64>| -> Result<String, String> {
+            if kind == "gc" {
+                // chunk timestamps are whole seconds and the collector wants `created < now - min_age` (min_age is 0 here)
+                std::thread::sleep(Duration::from_millis(1100));
+                return block_on(b.gc()).map(|s| format!("{s:?}")).map_err(|e| e.to_string());
+            }
             if kind == "store" {
                 block_on(b.put("g", &content(t.unwrap_or(7)), PutOptions::default())).map_err(|e| e.to_string())
             } else {
